@@ -96,6 +96,7 @@ class Module:
                     visit(st.body, q + ".", None)
                 elif isinstance(st, ast.ClassDef):
                     self.classes[st.name] = Cls(self, st.name, st)
+                    _dataclass_init(st)       # @dataclass without __init__: the constructor the decorator generates, written out
                     visit(st.body, st.name + ".", st.name)
                 elif isinstance(st, (ast.If, ast.Try, ast.With, ast.For, ast.While)):
                     for fld in ("body", "orelse", "finalbody"):
@@ -114,6 +115,84 @@ class Module:
             elif isinstance(st, ast.AnnAssign) and isinstance(st.target, ast.Name) and st.value is not None:
                 out[st.target.id] = st.value
         return out
+
+
+def _dataclass_init(cl: ast.ClassDef) -> None:
+    """For `@dataclass class C: a: T; b: U = d; def __post_init__(self): BODY` without an __init__ of its own, add to the class (for the
+    analysis only) the constructor the decorator generates:  def __init__(self, a, b=d): self.a = a; self.b = b; BODY
+    — a record class and its dataclass spelling are the same class for the rules."""
+    decs = [ast.unparse(d).split("(")[0].split(".")[-1] for d in cl.decorator_list]
+    if "dataclass" not in decs:
+        return
+    for d in cl.decorator_list:
+        if isinstance(d, ast.Call):
+            for k in d.keywords:
+                if k.arg == "init" and isinstance(k.value, ast.Constant) and k.value.value is False:
+                    return
+    if any(isinstance(st, (ast.FunctionDef, ast.AsyncFunctionDef)) and st.name == "__init__" for st in cl.body):
+        return
+    fields = []
+    for st in cl.body:
+        if isinstance(st, ast.AnnAssign) and isinstance(st.target, ast.Name):
+            ann = ast.unparse(st.annotation)
+            if ann.startswith("ClassVar") or ann.startswith("typing.ClassVar"):
+                continue
+            default = st.value
+            if isinstance(default, ast.Call) and ast.unparse(default.func).split(".")[-1] == "field":
+                dv = None
+                for k in default.keywords:
+                    if k.arg == "default":
+                        dv = k.value
+                    elif k.arg == "default_factory":
+                        dv = ast.Call(func=k.value, args=[], keywords=[])
+                    elif k.arg == "init" and isinstance(k.value, ast.Constant) and k.value.value is False:
+                        dv = "skip"
+                if dv == "skip":
+                    continue
+                default = dv
+            fields.append((st.target.id, default, st))
+    if not fields:
+        return
+    post = [st for st in cl.body if isinstance(st, ast.FunctionDef) and st.name == "__post_init__"]
+    body: List[ast.stmt] = []
+    fnames = {n for n, _, _ in fields}
+    if post and len(post[0].args.args) == 1 and not any(isinstance(x, ast.Call) and isinstance(x.func, ast.Attribute) and isinstance(x.func.value, ast.Name)
+                                                         and x.func.value.id == post[0].args.args[0].arg for st in post[0].body for x in ast.walk(st)):
+        # the hook's statements first, reading and re-binding the parameters where it reads and stores the fields, then the stores: an exception
+        # in the hook abandons the object either way, and what the hook leaves in a field is what the parameter holds at the store
+        import copy
+        selfn = post[0].args.args[0].arg
+
+        class _F(ast.NodeTransformer):
+            def visit_Attribute(self, a):
+                self.generic_visit(a)
+                if isinstance(a.value, ast.Name) and a.value.id == selfn and a.attr in fnames:
+                    return ast.copy_location(ast.Name(id=a.attr, ctx=a.ctx), a)
+                return a
+        for st in post[0].body:
+            if isinstance(st, ast.Expr) and isinstance(st.value, ast.Constant) and isinstance(st.value.value, str):
+                continue
+            c = _F().visit(copy.deepcopy(st))
+            for x in ast.walk(c):
+                if isinstance(x, ast.Name) and x.id == selfn and selfn != "self":
+                    x.id = "self"
+            body.append(c)
+        cl.body[:] = [x for x in cl.body if x is not post[0]]
+    for name, default, st in fields:
+        a = ast.Assign(targets=[ast.Attribute(value=ast.Name(id="self", ctx=ast.Load()), attr=name, ctx=ast.Store())], value=ast.Name(id=name, ctx=ast.Load()))
+        ast.copy_location(a, st)
+        body.append(a)
+    args = ast.arguments(posonlyargs=[], args=[ast.arg(arg="self")] + [ast.arg(arg=n) for n, _, _ in fields], vararg=None, kwonlyargs=[], kw_defaults=[], kwarg=None,
+                         defaults=[d for _, d, _ in fields if d is not None])
+    fn = ast.FunctionDef(name="__init__", args=args, body=body or [ast.Pass()], decorator_list=[], returns=None, type_comment=None, type_params=[])
+    ast.copy_location(fn, cl)
+    ast.fix_missing_locations(fn)
+    for n in ast.walk(fn):
+        for ch in ast.iter_child_nodes(n):
+            ch._parent = n  # type: ignore[attr-defined]
+    fn._parent = cl  # type: ignore[attr-defined]
+    fn._synthetic = True  # type: ignore[attr-defined]
+    cl.body.append(fn)
 
 
 def parent(n: ast.AST) -> Optional[ast.AST]:
